@@ -1,5 +1,6 @@
 import Dawn.Proofs.Label
 import Dawn.Proofs.LabelPath
+import Dawn.Proofs.LabelTip
 /-!
 # C12 — labels are canonical, stable identities confined to the project
 
@@ -236,6 +237,37 @@ theorem C12_source_root_observation :
     (parseGo (print ⟨sourceKind, [], [47, 47], []⟩)).returns = true ∧
     parseGo (print ⟨sourceKind, [], [47, 47], []⟩) ≠ .ok ⟨sourceKind, [], [47, 47], []⟩ := by
   decide
+
+/-! ## build records (`targetInfoPath`) -/
+
+/-- C12 "stable identities": the path of the build record of a label determines the label. `TipOK`: the labels a
+project keeps records for — no project part, a kind without `/` that is not spelled `target`, an absolute
+package, a non-empty name without `/` (names `.` and `..` included: the name is concatenated with `/` and escaped,
+never joined as a path element). `work` is any work directory. -/
+theorem C12_record_path_injective (work : Bytes) (l₁ l₂ : Label) (h₁ : TipOK l₁) (h₂ : TipOK l₂)
+    (h : targetInfoPathGo work l₁ = targetInfoPathGo work l₂) : l₁ = l₂ :=
+  tip_injective work l₁ l₂ h₁ h₂ h
+
+/-- … and every record lies exactly two levels below the work directory: `work / kind+"s" / escaped(pkg/name)` -/
+theorem C12_record_path_below (work : Bytes) : ∃ base, ∀ l, TipOK l →
+    ∃ p, targetInfoPathGo work l = .ok p ∧ pathComps p = base ++ [tipDir l, tipSeg l] :=
+  tip_below work
+
+/-- each condition of `TipOK` is needed (observations on the unchanged code, outside what a project stores side by
+side): the kinds `""` and `target` share a directory; the names `""` and `BUILD.dawn` share a record; the project
+part is ignored. Work directory `/w`, package `//a`, name `n`. -/
+theorem C12_record_path_counterexamples :
+    targetInfoPathGo [47, 119] ⟨[], [], [47, 47, 97], [110]⟩ = targetInfoPathGo [47, 119] ⟨defaultKind, [], [47, 47, 97], [110]⟩ ∧
+    targetInfoPathGo [47, 119] ⟨[], [], [47, 47, 97], []⟩ = targetInfoPathGo [47, 119] ⟨[], [], [47, 47, 97], defaultTarget⟩ ∧
+    targetInfoPathGo [47, 119] ⟨[], [], [47, 47, 97], [110]⟩ = targetInfoPathGo [47, 119] ⟨[], [112], [47, 47, 97], [110]⟩ := by
+  decide
+
+/-! non-vacuity: `//docs:.`, `//docs/api:..` and `//:docs` are storable and have three different records
+(`/w/targets/docs%2F.`, `/w/targets/docs%2Fapi%2F..`, `/w/targets/%2Fdocs`) -/
+example : TipOK ⟨[], [], [47, 47, 100, 111, 99, 115], [46]⟩ := ⟨rfl, by decide, by decide, by decide, by decide, by decide⟩
+example : targetInfoPathGo [47, 119] ⟨[], [], [47, 47, 100, 111, 99, 115], [46]⟩ = .ok [47, 119, 47, 116, 97, 114, 103, 101, 116, 115, 47, 100, 111, 99, 115, 37, 50, 70, 46] ∧
+    targetInfoPathGo [47, 119] ⟨[], [], [47, 47, 100, 111, 99, 115, 47, 97, 112, 105], [46, 46]⟩ = .ok [47, 119, 47, 116, 97, 114, 103, 101, 116, 115, 47, 100, 111, 99, 115, 37, 50, 70, 97, 112, 105, 37, 50, 70, 46, 46] ∧
+    targetInfoPathGo [47, 119] ⟨[], [], [47, 47], [100, 111, 99, 115]⟩ = .ok [47, 119, 47, 116, 97, 114, 103, 101, 116, 115, 47, 37, 50, 70, 100, 111, 99, 115] := by decide
 
 /-- The side condition is necessary (the exemption in the property text): `k:p:` is accepted with kind `k`,
 package `p` and no name, prints as `k:p`, and that is the label with package `k` and name `p`. -/
